@@ -432,7 +432,27 @@ pub fn random_stmt(rng: &mut Rng, labels: &[String], stack: bool) -> Item {
 pub fn random_program(rng: &mut Rng, stack: bool) -> Vec<Item> {
     let n = 3 + rng.below(60) as usize;
     let nlabels = (rng.below(8) as usize).min(n);
-    let labels: Vec<String> = (0..nlabels).map(|i| label_name(i, rng)).collect();
+    let mut labels: Vec<String> = (0..nlabels).map(|i| label_name(i, rng)).collect();
+    // now and then two of the labels differ only in the letter case of one character (they are still two labels)
+    if nlabels >= 2 && rng.chance(1, 3) {
+        let base = labels[0].clone();
+        let flipped: String = {
+            let mut done = false;
+            base.chars()
+                .map(|c| {
+                    if !done && c.is_ascii_alphabetic() {
+                        done = true;
+                        if c.is_ascii_lowercase() { c.to_ascii_uppercase() } else { c.to_ascii_lowercase() }
+                    } else {
+                        c
+                    }
+                })
+                .collect()
+        };
+        if flipped != base && !labels.contains(&flipped) {
+            labels[1] = flipped;
+        }
+    }
     let mut ast: Vec<Item> = Vec::new();
     for _ in 0..n {
         ast.push(random_stmt(rng, &labels, stack));
